@@ -8,3 +8,5 @@ import Spake2Model.Gen.ProtoShape
 import Spake2Model.Gen.UtilArith
 import Spake2Model.Model.Driver
 import Spake2Model.Model.System
+import Spake2Model.Gen.ProtoFlow
+import Spake2Model.Gen.GroupShape
